@@ -30,7 +30,7 @@ ASSUMPTIONS = ["temporary files live on the tmpfs/ext4 of the sandbox; mtimes ar
 
 
 def budget(tier):
-    return 30000 if tier == "quick" else 500000
+    return 100000 if tier == "quick" else 1500000
 
 
 KINDS = ["missing", "file", "dir", "link-file", "link-missing"]
